@@ -21,7 +21,7 @@ Proof.
   revert s; induction order as [|l0 order IH]; intros s H; simpl; [exact H|]. apply IH, eval1_vis_persist, H.
 Qed.
 
-Definition dry_of (c : bcfg) : bcfg := mkCfg (c_always c) true (c_fail c) false [] [].
+Definition dry_of (c : bcfg) : bcfg := mkCfg (c_always c) true (c_fail c) false [] [] [].
 
 Record psim (pr : project) (w : world) (sd sr : bstate) : Prop := {
   ps_wd : b_w sd = w;
